@@ -80,6 +80,9 @@ REQUIRED_PROBES = {
         "soap_run",
         "frozen_param_run",
         "ckpt_regrouped",
+        "factorless_block_with_state_run",
+        "schedule_rewritten_run",
+        "param_groups_compared",
     ],
 }
 
@@ -220,6 +223,15 @@ class ShardSystem(System):
         return None
 
 
+def _differs(a: Any, b: Any) -> bool:
+    try:
+        if isinstance(a, torch.Tensor) or isinstance(b, torch.Tensor):
+            return not (isinstance(a, torch.Tensor) and isinstance(b, torch.Tensor) and torch.equal(a, b))
+        return bool(a != b)
+    except Exception:  # noqa: BLE001
+        return repr(a) != repr(b)
+
+
 def phases_of(trace: dict) -> list[str]:
     """Phase label of the state after each event index (for crash-point selection and coverage)."""
     cfgs = [spec.effective_group_config(trace["config"], g.get("overrides", {})) for g in trace["groups"]]
@@ -332,6 +344,7 @@ def campaign(trace: dict, make_system, probes: Counter, yield_fn=None) -> Violat
     # uninterrupted run, saving at every crash point
     A = make_system(None)
     disk: dict[int, tuple[dict, list[torch.Tensor]]] = {}
+    hyper: dict[int, list[dict]] = {}
     record: dict[int, tuple[list[torch.Tensor], dict]] = {}
     leafless = False
     for k in range(T + 1):
@@ -367,6 +380,7 @@ def campaign(trace: dict, make_system, probes: Counter, yield_fn=None) -> Violat
                     if key != "step" and not any(True for _ in spec.walk_state(A.opt.state[p][key])):
                         leafless = True
             disk[k] = (clone_state_dict(sd, roundtrip), local_params(A.params))
+            hyper[k] = [{kk: copy.deepcopy(vv) for kk, vv in g.items() if kk != "params"} for g in A.opt.param_groups]
         if k < T:
             exc = A.apply(trace["events"][k])
             if yield_fn:
@@ -460,6 +474,13 @@ def campaign(trace: dict, make_system, probes: Counter, yield_fn=None) -> Violat
             return Violation(ID, "own_checkpoint_rejected", k - 1, {**ctx, "exc_type": type(e).__name__, "exc": str(e)[:200], "leafless_block": leafless})
         if hparams_written:
             probes["hparam_restored_from_param_groups"] += 1
+        # the restored optimizer's param_groups hold exactly the hyper-parameters the stopped optimizer had (scheduler writes
+        # included): the continuation depends on every one of them
+        for gi, (ga, gb) in enumerate(zip(hyper[k], B.opt.param_groups)):
+            for kk, va in ga.items():
+                if kk not in gb or _differs(va, gb[kk]):
+                    return Violation(ID, "param_groups_not_restored", k - 1, {**ctx, "group": gi, "key": kk, "saved": repr(va)[:80], "restored": repr(gb.get(kk))[:80]})
+        probes["param_groups_compared"] += 1
         # restore-then-save equals the loaded snapshot
         sd2 = clone_state_dict(B.save(), False)
         for pk, flat in sd_disk["state"].items():
@@ -550,8 +571,20 @@ def generate(rng: random.Random, tier: str) -> dict:
         config["grafting"] = None
     n_params = rng.choice([1, 2, 2, 3, 4])
     params = gen.gen_params(rng, n_params, dtype, max_numel=160)
+    factorless = False
     if config["grafting"] is None and config["betas"][0] == 0.0 and rng.random() < 0.7:
         params[rng.randrange(n_params)]["shape"] = []
+    elif layout == "serial" and rng.random() < 0.12:
+        # a block without any Kronecker factor that still owns state (filtered gradient, momentum, grafting accumulator):
+        # a 0-D parameter with merging off, or a 1-D parameter whose only dimension is ignored
+        if rng.random() < 0.5 or kind != "shampoo":
+            config["use_merge_dims"] = False
+            params[rng.randrange(n_params)]["shape"] = []
+        else:
+            config["preconditioner"]["ignored_dims"] = [0]
+            config["inv_root_override"] = 0
+            params[rng.randrange(n_params)]["shape"] = [rng.choice([2, 3, 5])]
+        factorless = True
     trace: dict[str, Any] = {"schema": 1, "property": ID, "engine": "crash", "config": config, "params": params, "world": None, "layout": layout}
     if layout == "ddp":
         from .c06 import divisors, gen_world_params
@@ -578,6 +611,15 @@ def generate(rng: random.Random, tier: str) -> dict:
         trace["groups"] = gen.gen_groups(rng, n_params, config)
         T = rng.choice([1, 2, 3, 4, 6, 8, 10, 12, 16] + ([24, 30] if tier == "thorough" else []))
         trace["events"] = gen.gen_history(rng, params, trace["groups"], config, T, hparam_rate=0.12)
+        if rng.random() < 0.25 and T >= 2:
+            # the preconditioning schedule itself is changed in param_groups during the run (a longer or shorter refresh
+            # period, also one that exceeds start_preconditioning_step - a combination only a later write can produce)
+            at = rng.randrange(1, len(trace["events"]) + 1)
+            gi_ = rng.randrange(len(trace["groups"]))
+            eff_ = spec.effective_group_config(config, trace["groups"][gi_].get("overrides", {}))
+            start_ = eff_["start_preconditioning_step"] if eff_["start_preconditioning_step"] != -1 else eff_["precondition_frequency"]
+            val = rng.choice([1, 2, 3, start_ + 1, start_ + 3, eff_["precondition_frequency"] + 1])
+            trace["events"].insert(at, {"op": "set_hparam", "group": gi_, "key": "precondition_frequency", "value": int(val)})
     for ev in trace["events"]:
         if ev["op"] == "step":
             for g in ev["g"]:
@@ -598,6 +640,7 @@ def generate(rng: random.Random, tier: str) -> dict:
     trace["campaign_seed"] = rng.randrange(1 << 30)
     trace["ckpt_faults"] = rng.random() < 0.4
     trace["torch_save_roundtrip"] = rng.random() < 0.2
+    trace["factorless_with_state"] = factorless
     return trace
 
 
@@ -653,6 +696,10 @@ def execute(trace: dict) -> Outcome:
         probes["soap_run"] += 1
     if trace.get("frozen"):
         probes["frozen_param_run"] += 1
+    if trace.get("factorless_with_state"):
+        probes["factorless_block_with_state_run"] += 1
+    if any(e["op"] == "set_hparam" and e["key"] == "precondition_frequency" for e in trace["events"]):
+        probes["schedule_rewritten_run"] += 1
     ph = set(phases_of(trace))
     feats = config_features(spec.effective_group_config(trace["config"], trace["groups"][0].get("overrides", {})), [p["dtype"] for p in trace["params"]])
     return Outcome(
